@@ -250,7 +250,7 @@ Lemma HexInteger_negative_print p :
 Proof. reflexivity. Qed.
 
 Lemma big_0x_minus_err tail : BigIntegerFromString (t_0x ++ t_minus ++ tail) = Err ENumber.
-Proof. vm_compute. reflexivity. Qed.
+Proof. destruct tail as [|a tail]; [vm_compute; reflexivity|]. timeout 30 (vm_compute). reflexivity. Qed.
 
 (* ... and that text is refused by the parser: no round trip for negative values *)
 Theorem HexInteger_negative_no_roundtrip lex p :
